@@ -47,6 +47,14 @@ func (t *Telnet) handleControlCharResponse(ctrlBuf []byte, c byte) ([]byte, erro
 		}
 	} else if len(ctrlBuf) == 1 && util.ByteIsAny(c, []byte{do, dont, will, wont}) {
 		ctrlBuf = append(ctrlBuf, c)
+	} else if len(ctrlBuf) == 1 {
+		// not an option negotiation: a two byte command (nop, go ahead, ...) ends here, and an
+		// escaped iac (iac iac) is the data byte 255 -- either way we are done with this sequence
+		ctrlBuf = make([]byte, 0)
+
+		if c == iac {
+			t.initialBuf = append(t.initialBuf, c)
+		}
 	} else if len(ctrlBuf) == 2 { //nolint:mnd
 		cmd := ctrlBuf[1:2][0]
 		ctrlBuf = make([]byte, 0)
